@@ -1001,7 +1001,15 @@ package consensus
 // A full block reaches the proof-of-work fields of its state through ApplyHeader, applied to the
 // block's own header and to a state that differs from the parent only in fields ApplyHeader does
 // not read (C13: identical for headers and full blocks).
+// the accumulator leaves of the elements a block touched carry the spent / resolved flag of the
+// recorded diff (C04 / C02: a spent element or a resolved contract is rewritten as such)
 //@ func forEachAppliedElement
+//@   prop C04 C02
+//@   asserts-only
+//@   at call:siacoinLeaf#1 assert @siacoin-flag $arg1 == sce.Spent
+//@   at call:siafundLeaf#1 assert @siafund-flag $arg1 == sfe.Spent
+//@   at call:fileContractLeaf#1 assert @contract-flag $arg2 == fce.Resolved && $arg1 == fce.Revision
+//@   at call:v2FileContractLeaf#1 assert @v2-contract-flag $arg2 == !isnil(v2fce.Resolution) && $arg1 == v2fce.Revision
 //@   trusted
 //@ func (*ElementAccumulator).applyBlock
 //@   trusted
